@@ -118,12 +118,24 @@ func c01(args []string) {
 		wellFormed := r.chance(5, 6)
 		var ec encCfg
 		var files []encFile
+		dependent := false
 		if i < 0 { // deterministic corpus of unusual values the encoder accepts: the output must still be well formed
 			wellFormed = false
 			ec, files = odd[i+len(odd)].ec, odd[i+len(odd)].files
 			stat("odd_accepted_inputs", 1)
 		} else {
 			ec, files = r.genChain(wellFormed)
+			dependent = false
+			if r.chance(1, 6) { // a later file of the chain that relies on the declarations of the first one: every file stands alone
+				if dep, ok := withoutDeclarations(files[0]); ok {
+					files = append(files, dep)
+					dependent = true
+					stat("chain_with_undeclared_developer_fields", 1)
+				}
+			}
+		}
+		if i >= 0 && (i%2 == 1 || dependent) { // the same chain through the stream encoder: accepted <=> accepted in one piece, same bytes
+			c01Stream(ec, files, wellFormed)
 		}
 		b, wb, err := encodeChain(ec, files)
 		obs := fmt.Sprintf("EOk %s %s", coqBytes(b), coqList(wb))
@@ -204,6 +216,73 @@ func c01(args []string) {
 		}
 		if i >= 0 && i < 2 {
 			emit("SAMPLE", fmt.Sprintf("cfg {%s} chain %d, %d messages in file 0 -> %d bytes", ec.coq(), len(files), len(files[0].msgs), len(b)))
+		}
+	}
+}
+
+// withoutDeclarations: the file without its developer_data_id / field_description messages (ok when it uses developer fields).
+func withoutDeclarations(f encFile) (encFile, bool) {
+	out := encFile{hsize: f.hsize, proto: f.proto, profile: f.profile}
+	uses := false
+	for _, m := range cloneMessages(f.msgs) {
+		if m.Num == mesgnum.DeveloperDataId || m.Num == mesgnum.FieldDescription {
+			continue
+		}
+		uses = uses || len(m.DeveloperFields) > 0
+		out.msgs = append(out.msgs, m)
+	}
+	return out, uses && len(out.msgs) > 0
+}
+
+// c01Stream: the chain written message by message with the stream encoder (WriteMessage / SequenceCompleted) to a
+// destination that can seek and write at an offset.  What it accepts must be what Encode accepts (the model decides), the
+// bytes the same, and every accepted sequence must decode back to its validated messages.
+func c01Stream(ec encCfg, files []encFile, wellFormed bool) {
+	sfiles := make([]encFile, len(files))
+	for i, f := range files {
+		sfiles[i] = encFile{msgs: f.msgs} // the stream encoder's own (zero) header: default size, versions from the options
+	}
+	res := runEncode(ec, sfiles, 3, 0, true, -1, 0, nil)
+	accepted := res.panicked == nil && len(res.errs) == len(sfiles)
+	for _, e := range res.errs {
+		accepted = accepted && !e
+	}
+	obs := "EErr 0"
+	if accepted {
+		obs = fmt.Sprintf("EOk %s []", coqBytes(res.data))
+		stat("stream_encode_ok", 1)
+	} else {
+		stat("stream_encode_rejected", 1)
+	}
+	emit("SENC", fmt.Sprintf("(%s, %s, %s)", ec.coq(), coqEFiles(sfiles), obs))
+	if res.panicked != nil {
+		emitJSON("FAIL", "", map[string]any{"kind": "stream-encoder-panic", "panic": fmt.Sprint(res.panicked), "cfg": ec.coq(), "input": coqEFiles(sfiles)})
+		return
+	}
+	if !accepted || !wellFormed {
+		return
+	}
+	dres := decodeBytes(res.data, true, false)
+	if dres.err != nil || dres.panicked != nil || len(dres.fits) != len(sfiles) {
+		emitJSON("FAIL", "", map[string]any{"kind": "decode-of-stream-encoded", "bytes": fmt.Sprintf("%x", res.data), "err": fmt.Sprint(dres.err), "panic": fmt.Sprint(dres.panicked), "fits": len(dres.fits)})
+		return
+	}
+	for k, f := range sfiles {
+		want, verr := validateSeq(ec.preserve, f.msgs)
+		if verr != nil {
+			emitJSON("FAIL", "", map[string]any{"kind": "stream-accepted-what-the-validator-rejects", "file": k, "err": verr.Error(), "cfg": ec.coq(), "input": coqIMesgs(f.msgs), "bytes": fmt.Sprintf("%x", res.data)})
+			continue
+		}
+		diff, known := compareDecoded(want, dres.fits[k].Messages)
+		stat("stream_roundtrip_sequences", 1)
+		if diff == "" {
+			continue
+		}
+		js := map[string]any{"kind": "roundtrip (stream encoder)", "diff": diff, "cfg": ec.coq(), "file": k, "input": coqIMesgs(f.msgs), "bytes": fmt.Sprintf("%x", res.data)}
+		if known != "" {
+			emitJSON("KNOWN", known, js)
+		} else {
+			emitJSON("FAIL", "", js)
 		}
 	}
 }
